@@ -238,6 +238,10 @@ def check_fold(ctx, inst, fold, qname, field, reverse):
         inst.fail("%s:shape" % inst.id, fold.path, fold.span, "expected a single loop (or a single fold) over the operations with a running amount: unrecognised-idiom")
         return
     names = [a for a, _ in ads]
+    if "enumerate" in names and form == "loop":
+        # `for (i, op) in operations.into_iter()[.rev()].enumerate()` (the index only labels error messages): same elements, same order
+        names = [a for a in names if a != "enumerate"]
+        item = item + ".1"
     if names != (["rev"] if reverse else []) or kind != "into_iter" or set(ctx.roots(src)) != {P_(fold, ops_i)}:
         inst.fail("%s:iteration" % inst.id, fold.path, fold.span, "route is iterated with adaptors %s (expected %s) over %s" % (names, ["rev"] if reverse else [], sorted(ctx.roots(src))))
     else:
